@@ -499,7 +499,15 @@ impl<'a> Value<'a> {
 
     /// Compares two values for sorting, treating NULL as less than any non-NULL value.
     pub fn compare_for_sort(&self, other: &Value) -> Ordering {
-        self.compare(other).unwrap_or(Ordering::Equal)
+        // ORDER BY needs a total order: NULL sorts before every non-NULL value (so it comes
+        // first ascending and last descending). `compare` returns None for NULL operands,
+        // which must not be read as "equal" here.
+        match (self, other) {
+            (Value::Null, Value::Null) => Ordering::Equal,
+            (Value::Null, _) => Ordering::Less,
+            (_, Value::Null) => Ordering::Greater,
+            _ => self.compare(other).unwrap_or(Ordering::Equal),
+        }
     }
 
     /// Clones this value into an arena allocator with the arena's lifetime.
